@@ -137,6 +137,7 @@ func (bw *BatchedWriter) Enqueue(object BatchWriteObject) {
 	if !bw.running.Load() {
 		return
 	}
+	verifYield("BatchedWriter.Enqueue:after-running-check")
 
 	// abort if the very same object has been queued already
 	if object.BatchWriteScheduled() {
